@@ -192,6 +192,76 @@ Proof.
 Qed.
 
 
+(** * more about checked memory *)
+Lemma mread_app_l a b i : 0 <= i < lenZ a -> mread (a ++ b) i = mread a i.
+Proof.
+  intros. unfold mread. destruct (Z.leb_spec 0 i); [|lia]. rewrite dropZ_app_l by lia.
+  destruct (dropZ i a) eqn:D; [|reflexivity].
+  pose proof (lenZ_dropZ i a). rewrite D, lenZ_nil0 in H1. lia.
+Qed.
+Lemma mread_app_r a b i : lenZ a <= i -> mread (a ++ b) i = mread b (i - lenZ a).
+Proof.
+  intros. pose proof (lenZ_nonneg a). unfold mread.
+  destruct (Z.leb_spec 0 i); [|lia]. destruct (Z.leb_spec 0 (i - lenZ a)); [|lia].
+  rewrite dropZ_app_r by lia. reflexivity.
+Qed.
+Lemma mread_dropZ k m i : 0 <= k -> 0 <= i -> mread (dropZ k m) i = mread m (k + i).
+Proof.
+  intros. unfold mread. destruct (Z.leb_spec 0 i); [|lia]. destruct (Z.leb_spec 0 (k + i)); [|lia].
+  rewrite dropZ_dropZ by lia. reflexivity.
+Qed.
+Lemma takeZ_cons n x t : 0 < n -> takeZ n (x :: t) = x :: takeZ (n - 1) t.
+Proof. intros. simpl. destruct (Z.leb_spec n 0); [lia | reflexivity]. Qed.
+Lemma dropZ_cons n x t : 0 < n -> dropZ n (x :: t) = dropZ (n - 1) t.
+Proof. intros. simpl. destruct (Z.leb_spec n 0); [lia | reflexivity]. Qed.
+Lemma takeZ_nil n : takeZ n [] = [].
+Proof. reflexivity. Qed.
+Lemma dropZ_nil n : dropZ n [] = [].
+Proof. reflexivity. Qed.
+Lemma dropZ_takeZ i n m : 0 <= i -> dropZ i (takeZ n m) = takeZ (n - i) (dropZ i m).
+Proof.
+  revert i n. induction m as [|x t IH]; intros i n I.
+  - reflexivity.
+  - destruct (Z.leb_spec n 0).
+    + rewrite (takeZ_nonpos n) by lia. rewrite dropZ_nil. rewrite takeZ_nonpos by lia. reflexivity.
+    + rewrite takeZ_cons by lia. destruct (Z.leb_spec i 0).
+      * rewrite !dropZ_nonpos by lia. replace (n - i) with n by lia. rewrite takeZ_cons by lia. reflexivity.
+      * rewrite !dropZ_cons by lia. rewrite IH by lia. f_equal. lia.
+Qed.
+Lemma mread_takeZ n m i : 0 <= i < n -> mread (takeZ n m) i = mread m i.
+Proof.
+  intros. unfold mread. destruct (Z.leb_spec 0 i); [|lia]. rewrite dropZ_takeZ by lia.
+  destruct (dropZ i m) as [|x t]; [reflexivity|]. rewrite takeZ_cons by lia. reflexivity.
+Qed.
+
+
+Lemma list_ext_mread (a b : list Z) : lenZ a = lenZ b -> (forall i, 0 <= i < lenZ a -> mread a i = mread b i) -> a = b.
+Proof.
+  revert b. induction a as [|x t IH]; intros b Lab H.
+  - symmetry. apply lenZ_nil. rewrite <- Lab. reflexivity.
+  - destruct b as [|y u]; [rewrite lenZ_cons, lenZ_nil0 in Lab; pose proof (lenZ_nonneg t); lia|].
+    rewrite !lenZ_cons in Lab. pose proof (lenZ_nonneg t).
+    assert (Hz := H 0 ltac:(rewrite lenZ_cons; lia)). unfold mread in Hz. simpl in Hz. inversion Hz; subst y. f_equal.
+    apply IH; [lia|]. intros i Hi.
+    assert (Hs := H (i + 1) ltac:(rewrite lenZ_cons; lia)).
+    unfold mread in *. destruct (Z.leb_spec 0 (i + 1)); [|lia]. destruct (Z.leb_spec 0 i); [|lia].
+    rewrite !dropZ_cons in Hs by lia. replace (i + 1 - 1) with i in Hs by lia. exact Hs.
+Qed.
+
+Lemma mread_mwrite m off d m' j : mwrite m off d = Some m' -> 0 <= j < lenZ m ->
+  mread m' j = if (off <=? j) && (j <? off + lenZ d) then mread d (j - off) else mread m j.
+Proof.
+  intros W J. destruct (mwrite_inv _ _ _ _ W) as [O B]. rewrite mwrite_some in W by lia. inversion W; subst m'. clear W.
+  pose proof (lenZ_nonneg d). assert (LT : lenZ (takeZ off m) = off) by (rewrite lenZ_takeZ; lia).
+  destruct (Z.leb_spec off j); simpl.
+  - rewrite mread_app_r by lia. rewrite LT.
+    destruct (Z.ltb_spec j (off + lenZ d)).
+    + apply mread_app_l. lia.
+    + rewrite mread_app_r by lia. rewrite mread_dropZ by lia. f_equal. lia.
+  - rewrite mread_app_l by lia. apply mread_takeZ. lia.
+Qed.
+
+
 (** * exec *)
 Lemma all_full_app a b : all_full (a ++ b) = all_full a && all_full b.
 Proof. apply forallb_app. Qed.
